@@ -110,7 +110,7 @@ CLASSES = {"alu": ["C08", "C16", "C28"], "load": ["C08", "C09", "C16", "C28"], "
            "irq": ["C08", "C10", "C16", "C27", "C28"], "bad": ["C08", "C09", "C16", "C28", "C12"]}
 for c, props in CLASSES.items():
     for mode in ("virtual", "real"):
-        K(f"K.sim.step_{c}_{mode}", "sim.rs", f"step_{c}_{mode}", props, STEP_FNS, args=UF, timeout=1500, stubs=L2STUBS, assumptions=L2ASSUME, group=f"step{c}")
+        K(f"K.sim.step_{c}_{mode}", "sim.rs", f"step_{c}_{mode}", sorted(set(props + (["C12"] if mode == "real" and c != "irq" else []))), STEP_FNS, args=UF, timeout=1500, stubs=L2STUBS, assumptions=L2ASSUME, group=f"step{c}")
 K("K.sim.psr_leaf", "sim.rs", "psr_leaf", ["C08"], ["PSR::new/get/set/privileged/priority/cc/is_n/is_z/is_p/set_privileged/set_priority/set_cc/set_cc_n/set_cc_z/set_cc_p"], group="simleaf", args=UF, replay="native")
 K("K.sim.sim_leaf", "sim.rs", "sim_leaf", ["C08", "C09", "C16", "C28"], ["Simulator::default_mem_ctx", "MemAccessCtx::omnipotent", "Simulator::set_cc", "Simulator::prefetch_pc"], group="simleaf", args=UF, stubs=[RS])
 K("K.sim.in_alloca", "sim.rs", "in_alloca_contract", ["C14", "C16"], ["Simulator::in_alloca"], kind="bounded", bound="<= 2 loaded blocks (sorted, disjoint)", group="simleaf", args=UF, stubs=[RS])
@@ -121,8 +121,8 @@ L1FN = ["Simulator::read_mem", "Simulator::write_mem"]
 K("K.sim.l1_read_empty", "sim.rs", "l1_read_empty_map", ["C08", "C09", "C16", "C28", "C32"], ["Simulator::read_mem"], args=UF, stubs=L1STUBS, group="l1e", timeout=1200)
 K("K.sim.l1_write_empty", "sim.rs", "l1_write_empty_map", ["C08", "C09", "C14", "C16", "C28", "C32"], ["Simulator::write_mem"], args=UF, stubs=L1STUBS, group="l1e", timeout=1200)
 US = {"hashbrown.*RawTableInner.*find_inner": 2}
-K("K.sim.l1_read_default", "sim.rs", "l1_read_default_map", ["C08", "C09", "C32"], ["Simulator::read_mem", "InternalRegister::read"], args=UF, stubs=L1STUBS, unwindset=US, timeout=1800, tier="thorough")
-K("K.sim.l1_write_default", "sim.rs", "l1_write_default_map", ["C08", "C09", "C32"], ["Simulator::write_mem", "InternalRegister::write"], args=UF, stubs=L1STUBS, unwindset=US, timeout=1800, tier="thorough")
+K("K.sim.l1_read_default", "sim.rs", "l1_read_default_map", ["C08", "C32"], ["Simulator::read_mem", "InternalRegister::read"], args=UF, stubs=L1STUBS, unwindset=US, timeout=1800)
+K("K.sim.l1_write_default", "sim.rs", "l1_write_default_map", ["C08", "C32"], ["Simulator::write_mem", "InternalRegister::write"], args=UF, stubs=L1STUBS, unwindset=US, timeout=1800)
 for h in ("strict_vs_lenient_virtual", "strict_vs_lenient_real", "strict_all_init_virtual", "strict_all_init_real"):
     K(f"K.sim.{h}", "sim.rs", h, ["C14"], STEP_FNS + ["Simulator::in_alloca"], args=UF, timeout=1800, stubs=L2STUBS,
       assumptions=L2ASSUME + ["<= 1 loaded block in the strict exemption list (in_alloca itself: K.sim.in_alloca)"], group=h)
@@ -137,6 +137,8 @@ STEPSTUB = ["Simulator::step=contract: arbitrary outcome; on Ok the counter may 
 for h, b in (("run_with_limit_3", "<= 3 loop iterations, no breakpoint"), ("step_over_3", "<= 3 loop iterations"), ("step_out_3", "<= 3 loop iterations"),
              ("run_3", "<= 3 loop iterations"), ("run_with_limit_3_bp", "<= 3 loop iterations, 1 PC breakpoint")):
     K(f"K.sim.{h}", "sim.rs", h, ["C13"], RUNFN, kind="bounded", bound=b, args=UF, stubs=STEPSTUB, group="runloops", timeout=1200)
+for h, b in (("run_with_limit_4", "<= 4 loop iterations, no breakpoint"), ("step_over_4", "<= 4 loop iterations"), ("step_out_4", "<= 4 loop iterations")):
+    K(f"K.sim.{h}", "sim.rs", h, ["C13"], RUNFN, kind="bounded", bound=b, args=UF, stubs=STEPSTUB, group="runloops", timeout=2400, tier="thorough", exploratory=True)
 K("K.sim.mmap_internal_empty_nonio", "sim.rs", "mmap_internal_empty_nonio", ["C32"], ["Simulator::mmap_internal", "Simulator::munmap_internal"], kind="bounded",
   bound="empty map; non-I/O address x3000 (concrete keys: SipHash of a symbolic key is out of reach); register kind symbolic", args=UF, stubs=[RS], group="mmap", timeout=1200)
 for h, b in (("mmap_internal_empty_free", "empty map; address xFE10"), ("mmap_internal_empty_other", "empty map; address xFE10, probe xFE20"),
@@ -190,6 +192,16 @@ for n in (9, 11):
 for h in ("source_info_0_0", "source_info_3_0", "source_info_3_1", "source_info_6_2", "source_info_8_2"):
     K(f"K.asm.{h}", "asm.rs", h, ["C25"], ["SourceInfo::count_lines", "SourceInfo::raw_line_span", "SourceInfo::get_line", "SourceInfo::get_pos_pair"],
       kind="bounded", bound="text of %s bytes with %s newlines at symbolic positions" % tuple(h.split("_")[2:]), group="src", replay="native")
+EXTR = "add_label is nested inside SymbolTable::new: its text is copied verbatim from /repo on every run into a generated module (only `pub(crate)` prepended); the call sites in the statement loop are not covered"
+K("K.asm.add_label_vacant", "asm.rs", "add_label_vacant", ["C02", "C23"], ["add_label (nested in SymbolTable::new)"], kind="bounded", bound="empty table; name 'Ab'; address, span start, external flag symbolic", stubs=[RS], assumptions=[EXTR], timeout=1800)
+K("K.asm.add_label_same_address", "asm.rs", "add_label_same_address", ["C02", "C23"], ["add_label (nested in SymbolTable::new)"], kind="bounded", bound="table with one entry 'A'; new spelling 'a' at the same address; address and external flags symbolic", stubs=[RS], assumptions=[EXTR], timeout=1800)
+K("K.asm.add_label_conflict", "asm.rs", "add_label_conflict", ["C02", "C23", "C26"], ["add_label (nested in SymbolTable::new)"], kind="bounded", bound="table with one entry 'A'; new spelling 'a' at a different address; addresses and external flags symbolic", stubs=[RS], assumptions=[EXTR], timeout=1800)
+for k in (1, 2, 3, 4):
+    K(f"K.asm.get_line_{k}", "asm.rs", f"get_line_{k}", ["C25"], ["SourceInfo::get_line"], kind="bounded", bound=f"newline table of {k} entries; entries and index symbolic", group="src", timeout=900)
+K("K.asm.get_line_7", "asm.rs", "get_line_7", ["C25"], ["SourceInfo::get_line"], kind="bounded", bound="newline table of 7 entries", group="src", timeout=900, tier="thorough")
+for h in ("source_info_8_1", "source_info_5_2"):
+    K(f"K.asm.{h}", "asm.rs", h, ["C25"], ["SourceInfo::count_lines", "SourceInfo::raw_line_span", "SourceInfo::get_line", "SourceInfo::get_pos_pair"],
+      kind="bounded", bound="text of %s bytes with %s newlines at symbolic positions" % tuple(h.split("_")[2:]), group="src", replay="native", tier="thorough")
 for h in ("line_span_2_0", "line_span_3_1", "line_span_4_1"):
     K(f"K.asm.{h}", "asm.rs", h, ["C25"], ["SourceInfo::line_span", "SourceInfo::read_line", "SourceInfo::raw_line_span"], kind="bounded",
       bound="ASCII text of %s symbolic bytes with %s newline(s)" % tuple(h.split("_")[2:]), group="src", timeout=1200)
@@ -210,6 +222,10 @@ for h in ("split_0", "split_3", "split_8", "take_2_of_1", "take_2_of_5", "take_8
 # ------------------------------------------------------------------------------------------------ Verus units
 Vv("V.shift", "shift", ["C01", "C02"], ["Cursor::shift (nested in SymbolTable::new)"], 3,
    assumptions=["core::mem::take and u16::wrapping_neg: assumed specifications (documented behaviour)", "Verus integer types are range-checked mathematical integers"])
+Vv("V.srcinfo", "srcinfo", ["C25"], ["SourceInfo::count_lines", "SourceInfo::raw_line_span", "SourceInfo::get_pos_pair"], 3,
+   assumptions=["SourceInfo::get_line: assumed contract (partition point of the newline table), checked against the real body by the bounded obligations K.asm.get_line_*",
+                "invariant wf (newline table strictly increasing, non-empty, last entry = text length <= isize::MAX) is established by SourceInfo::from_string: assumed (str scanning)",
+                "field src: String represented by an opaque type with a specified len()"])
 Vv("V.timer", "timer", ["C34"], ["TimerDevice::poll_interrupt", "TimerDevice::reset_remaining", "TimerDevice::io_reset"], 8,
    assumptions=["TimerDevice::try_generate_time (rand crate): assumed contract 'result inside the configured range, nothing else changes'",
                 "ranges containing 0 are outside the interval lemma's precondition (stated)", "Interrupt::vectored represented by its contract (K.device.interrupt_leaf)"])
@@ -232,7 +248,7 @@ PROPS = {
  "C16": ("proof", "Panic-freedom (overflow, bounds, unwrap) of every verified body from any machine state, incl. prefetch_pc after the step; inductive over histories."),
  "C19": ("other", "Partial, bounded: binary reader's slice helpers never panic and split exactly (slices <= 8 bytes). Text reader, link arithmetic and loading of wrapping blocks are not covered."),
  "C23": ("other", "Bounded stand-in: one-label tables built directly, query under either letter case."),
- "C25": ("other", "Bounded stand-in for the index arithmetic: texts of <= 8 bytes with <= 2 newlines at symbolic positions, any index. from_string's scan and whitespace trimming are assumed."),
+ "C25": ("proof", "Index arithmetic unbounded (Verus on the verbatim bodies of count_lines, raw_line_span, get_pos_pair: any text length, any number of lines, any index, incl. past the end), against the assumed contract of get_line which is checked bounded (<= 4 table entries) by Kani; the same arithmetic is also cross-checked by bounded Kani obligations on directly built tables; trimming bounded (<= 4 ASCII bytes). from_string's newline scan (the invariant of the table) is assumed."),
  "C26": ("proof", "Span container: every ErrSpan constructible through its public From/Extend impls (incl. the empty list both link errors carry) supports first() and iter() without panic. Call sites assumed."),
  "C27": ("proof", "Depth delta is part of the ISA reference of every step (L2); push/pop leaf contract; debug frames bounded (<= 2 parameters)."),
  "C28": ("proof", "Observer calls exact in read_mem/write_mem (L1), every program access tracked and the access set is the ISA's (L2); observer map bounded (2 updates)."),
